@@ -182,23 +182,23 @@ func mainUniverse(seed uint64, variant int) []*synthrepo.Pkg {
 	return pkgs
 }
 
-// installIfUniverse: the configuration built to trigger C01-F1. top depends
-// on d1..d4; x1..x4 are installed when the corresponding d is (install_if).
-func installIfUniverse() []*synthrepo.Pkg {
+// installIfUniverse: a configuration built to trigger what was C01-F1. top
+// depends on the leaves; the install_if packages (chains, several triggers)
+// stand BEFORE their triggers in the index.
+func installIfUniverse(u iiUniverse) []*synthrepo.Pkg {
 	var pkgs []*synthrepo.Pkg
 	mk := func(name string, p *synthrepo.Pkg) {
 		p.Name, p.Version, p.Arch, p.Origin, p.License, p.BuildTime = name, "1.0-r0", "x86_64", name, "MIT", 1700000000
 		p.Files = append(dirs("usr", "usr/share", "usr/share/"+name), synthrepo.File{Name: "usr/share/" + name + "/f", Mode: 0o644, Content: []byte(name + "\n")})
 		pkgs = append(pkgs, p)
 	}
-	var ds []string
-	for i := 1; i <= 4; i++ {
-		d := fmt.Sprintf("d%d", i)
-		ds = append(ds, d)
-		mk(d, &synthrepo.Pkg{})
-		mk(fmt.Sprintf("x%d", i), &synthrepo.Pkg{InstallIf: []string{d}})
+	for _, p := range u.Pkgs {
+		mk(p.Name, &synthrepo.Pkg{InstallIf: append([]string(nil), p.If...)})
 	}
-	mk("top", &synthrepo.Pkg{Deps: ds})
+	for _, d := range u.Deps {
+		mk(d, &synthrepo.Pkg{})
+	}
+	mk("top", &synthrepo.Pkg{Deps: append([]string(nil), u.Deps...)})
 	return pkgs
 }
 
